@@ -349,10 +349,9 @@ Section WorldProofs.
       destruct (IH wd1 H1) as [wd' [E' H']]. exists wd'. cbn [remove_seq]. rewrite E1. cbn [bind]. auto.
   Qed.
 
-  Lemma run_inv_ok : forall k ops c, forallb (fun o => negb (is_clear o)) ops = true ->
-    run hack k ops = Ok c -> inv_ok c /\ rc_kind c = k.
+  Lemma run_inv_ok : forall k ops c, run hack k ops = Ok c -> inv_ok c /\ rc_kind c = k.
   Proof.
-    intros k ops c Hn E. destruct (run_from_ok hack false ops (col_new k) (col_new_ok k) (or_intror Hn)) as [c' [E' [H' K']]].
+    intros k ops c E. destruct (run_from_ok hack true ops (col_new k) (col_new_ok k) (or_introl eq_refl)) as [c' [E' [H' K']]].
     unfold run in E. rewrite E' in E. inversion E; subst. split; [assumption|exact K'].
   Qed.
 End WorldProofs.
